@@ -84,7 +84,11 @@ def dump_entity(e):
     for bucket in ('client', 'cell', 'base'):
         items = []
         for k, v in e.properties[bucket].items():
-            items.append([k, codec.canon_py(codec.ty_of_obj(types[k]._type), v)])
+            try:
+                items.append([k, codec.canon_py(codec.ty_of_obj(types[k]._type), v)])
+            except Exception as exc:
+                # a stored value that does not even have the shape of its declared type is a finding, not a harness problem
+                items.append([k, {'not-of-declared-type': '%s: %r' % (type(exc).__name__, v)[:200]}])
         out[bucket] = sorted(items)
     out['volatile'] = sorted([[k, _pose_val(k, v)] for k, v in e.volatiles.items()])
     return out
